@@ -540,6 +540,38 @@ def tiling(ctx, gct):
                 else:
                     ok = False
                     what = term_str(y)[:60]
+                if tag == 'array' and not what.startswith("'a' +"):
+                    # an in-place scan of the element type instead of the
+                    # recursive "'a' + first complete type of the rest": the
+                    # piece must end either at the bracket the matcher found,
+                    # or at a code that was TESTED not to open a container -
+                    # tested at the index where the piece ends, i.e. after
+                    # any further array markers were skipped
+                    from .codec_rules import strip_sites
+                    hi_ = y[2][2] if kind(y) == 'sub' and \
+                        kind(y[2]) == 'slice' else None
+                    last = hi_[2] if kind(hi_) == 'binop' and hi_[1] == '+' \
+                        and hi_[3] == C(1) else None
+                    if last is None:
+                        raise AnalysisError(
+                            'genCompleteTypes: the end of an array piece is '
+                            'not <index> + 1 (%s)' % what)
+                    if kind(last) != 'call':
+                        at = strip_sites(('sub', sigp, last))
+                        closed = {c[3][1] for c, pol in bp.cond
+                                  if kind(c) == 'cmp' and c[1] == '==' and
+                                  not pol and is_const(c[3]) and
+                                  strip_sites(c[2]) == at}
+                        ctx.ob('C19.D5', gct.qualname,
+                               'array-piece-ends-at-a-tested-code',
+                               {'(', '{'} <= closed,
+                               'an array piece ends at index %s without the '
+                               'bracket matcher, but the code at THAT index '
+                               'was not tested against "(" and "{" (tested: '
+                               '%s): after two or more array markers a '
+                               'struct or dict-entry element is cut off '
+                               'behind its opening bracket'
+                               % (term_str(last)[:50], sorted(closed)))
                 ctx.ob('C19.D5', gct.qualname, 'tiles:%s' % tag, ok,
                        'the piece yielded (%s) must start at the current '
                        'index and the index must advance by exactly its '
